@@ -102,6 +102,34 @@ pub fn run(path: &str, seed: u64) -> (u64, u64) {
                         chk("twoway::FinderRev", guard(|| opt_to_i(twoway::FinderRev::new(&n).rfind(&h, &n))), wr);
                         chk("rabinkarp::Finder", guard(|| opt_to_i(rabinkarp::Finder::new(&n).find(&h, &n))), wf);
                     }
+                    // prefix / suffix truncations at boundary lengths (TruncLemma of MC_SubOracle gives the expected
+                    // values): the occurrence ends one before / exactly at / one after the end of the haystack, haystack
+                    // as long as the needle, lengths around one vector, and on aarch64 the packed-pair minimum length +-1
+                    if !ns.is_empty() && k == j % nl {
+                        let nlen = n.len();
+                        let mut ls: Vec<usize> = Vec::new();
+                        if wf >= 0 {
+                            let e = wf as usize + nlen;
+                            ls.extend([e - 1, e, e + 1]);
+                        }
+                        ls.extend([nlen, nlen + 1, 15, 16, 17]);
+                        #[cfg(target_arch = "aarch64")]
+                        if let Some(pf) = memchr::arch::aarch64::neon::packedpair::Finder::new(&n) {
+                            let m = pf.min_haystack_len();
+                            ls.extend([m - 1, m, m + 1]);
+                        }
+                        ls.retain(|&l| l <= h.len());
+                        ls.sort();
+                        ls.dedup();
+                        for l in ls {
+                            let want = if wf >= 0 && wf as usize + nlen <= l { wf } else { -1 };
+                            chk(&format!("memmem::find[prefix of {l} bytes]"), guard(|| opt_to_i(memmem::find(&h[..l], &n))), want);
+                            chk(&format!("Finder::find[prefix of {l} bytes]"), guard(|| opt_to_i(memmem::Finder::new(&n).find(&h[..l]))), want);
+                            let cut = h.len() - l;
+                            let wantr = if wr >= 0 && wr as usize >= cut { wr - cut as i64 } else { -1 };
+                            chk(&format!("memmem::rfind[suffix of {l} bytes]"), guard(|| opt_to_i(memmem::rfind(&h[cut..], &n))), wantr);
+                        }
+                    }
                     #[cfg(target_arch = "aarch64")]
                     {
                         use memchr::arch::aarch64::neon;
